@@ -120,6 +120,8 @@ class Clause:
     shards: int = 16
     # processes used in the quick tier (1 = in-process); for clauses whose cases are dominated by process start-up
     quick_shards: int = 1
+    # processes for the enumerated sub-space in the quick tier (None = quick_shards)
+    quick_enum_shards: Optional[int] = None
     # finite sub-space enumerated completely: tier -> iterable of cases
     enumerate: Optional[Callable[[str], Iterable[Any]]] = None
     enum_name: str = ""
@@ -467,7 +469,7 @@ def run_property(mod, tier: str, argv_opts) -> int:
         else:
             total = clause.thorough if tier == "thorough" else clause.quick
             r = run_clause_generated(
-                prop_id, clause, max(1, total // n), seed * 1000 + i, shrink=True
+                prop_id, clause, max(1, total // n), seed * 1000 + i, shrink=(tier == "thorough" or clause.shrink_quick)
             )
         with open(argv_opts["out"], "w") as f:
             json.dump({"rec": r.rec.to_json(), "violation": r.violation}, f, default=_json_default)
@@ -539,14 +541,29 @@ def run_property(mod, tier: str, argv_opts) -> int:
             pass
 
     # ---- generated / enumerated clauses ------------------------------------------
+    # quick tier: clauses that are spread over processes anyway are all started at once (their cases are dominated by
+    # process start-up and waiting for children); results are collected in clause order
+    ahead = {}
+    if tier == "quick" and not argv_opts.get("corpus_only"):
+        from concurrent.futures import ThreadPoolExecutor
+
+        pool = ThreadPoolExecutor(max_workers=8)
+        for clause in clauses:
+            if (only and clause.name != only) or clause.quick_shards <= 1:
+                continue
+            if clause.strategy is not None:
+                ahead[clause.name, "gen"] = pool.submit(run_sharded, prop_id, clause, tier, seed, "gen", clause.quick_shards)
+            if clause.enumerate is not None and tier in clause.enum_tiers:
+                ahead[clause.name, "enum"] = pool.submit(run_sharded, prop_id, clause, tier, seed, "enum",
+                                                         clause.quick_enum_shards or clause.quick_shards)
     for clause in clauses:
         if (only and clause.name != only) or argv_opts.get("corpus_only"):
             continue
         if clause.strategy is not None:
             if tier == "thorough" and clause.shards > 1:
                 r = run_sharded(prop_id, clause, tier, seed, "gen", clause.shards)
-            elif tier == "quick" and clause.quick_shards > 1:
-                r = run_sharded(prop_id, clause, tier, seed, "gen", clause.quick_shards)
+            elif (clause.name, "gen") in ahead:
+                r = ahead[clause.name, "gen"].result()
             else:
                 n = clause.thorough if tier == "thorough" else clause.quick
                 r = run_clause_generated(
@@ -564,8 +581,8 @@ def run_property(mod, tier: str, argv_opts) -> int:
         if clause.enumerate is not None and tier in clause.enum_tiers:
             if tier == "thorough" and clause.shards > 1:
                 r = run_sharded(prop_id, clause, tier, seed, "enum", clause.shards)
-            elif tier == "quick" and clause.quick_shards > 1:
-                r = run_sharded(prop_id, clause, tier, seed, "enum", clause.quick_shards)
+            elif (clause.name, "enum") in ahead:
+                r = ahead[clause.name, "enum"].result()
             else:
                 r = run_clause_enumerated(prop_id, clause, tier)
             results.append(r)
